@@ -99,26 +99,28 @@ theorem result_parses_partial (m : Message) (lim : Nat) (w : Bytes) (hok : MsgOk
   · obtain ⟨m', hp, hs⟩ := parse_toWire_full (m.cut k (m.tcAt k)) lim w (hok.cut k _) h2 cfg horg hnorr hkey
     exact ⟨m', hp, Or.inr ⟨k, hk, hs⟩⟩
 
-/-- "when padding is requested the final length, TSIG included, is a multiple of the block size" — proved for
-every message that carries no TSIG (any limit, with or without truncation).
-Full statement (not provable for the code as shipped, see `padding_counterexample_D07`):
-  `m.opt = some o → m.pad ≠ 0 → m.toWire lim pt = .ok w → w.length % m.pad = 0`.
-What is missing: the TSIG reserve (`_compute_tsig_reserve`) assumes an uncompressed owner name, but
-`Message.to_wire` appends the TSIG through `add_rrset` with the compression table, so the record is shorter than
-reserved whenever a suffix of the key name already occurs in the message. -/
-theorem padding_multiple_partial (m : Message) (lim : Nat) (pt : Bool) (w : Bytes) (o : EOpt)
-    (hopt : m.opt = some o) (hpad : m.pad ≠ 0) (hguard : m.tsig = none) (h : m.toWire lim pt = .ok w) :
+/-- "when padding is requested the final length, TSIG included, is a multiple of the block size": for every message
+that carries an OPT record and requests padding (`pad ≠ 0`), with or without TSIG, at any limit, with or without
+truncation, a successful rendering has a length divisible by the block size.  (The TSIG reserve is exact because
+`Message.to_wire` renders the TSIG against a fresh compression table — repair b2718ca of DESIGN §6 D07; before it
+the key name could be compressed and the witness below came out at 121 octets.) -/
+theorem padding_multiple (m : Message) (lim : Nat) (pt : Bool) (w : Bytes) (o : EOpt)
+    (hopt : m.opt = some o) (hpad : m.pad ≠ 0) (h : m.toWire lim pt = .ok w) :
     w.length % m.pad = 0 :=
-  toWire_pad_no_tsig m lim pt w o hopt hpad hguard h
+  toWire_pad m lim pt w o hopt hpad h
 
-/-- DESIGN §6 D07, in the model of the code as shipped: `www.example. A` with `use_edns(0, pad=128)` and a TSIG
-key `key.example.` renders to 121 octets (the key name is compressed to `key` + pointer, 9 octets shorter than
-the reserve), so the padded length is 121 mod 128. -/
-theorem padding_counterexample_D07 :
-    (({ id := 1, flags := 256, requestPayload := 1232, pad := 128, q := [{ name := [[119,119,119],[101,120,97,109,112,108,101],[]], rdclass := 1, rdtype := 1 }], opt := some { ttl := 0, payload := 1232, options := [] }, tsig := some { name := [[107,101,121],[101,120,97,109,112,108,101],[]], alg := [[104,109,97,99,45,115,104,97,50,53,54],[]], time := 1700000000, fudge := 300, mac := List.replicate 32 0, origId := 1, error := 0, other := [] } } : Message).toWire 0 false).map (fun w => w.length % 128) = .ok 121 := by
+-- regression (former D07 witness): `www.example. A`, `use_edns(0, pad=128)`, TSIG key `key.example.` now renders to 128 octets
+set_option maxRecDepth 100000 in
+example : (({ id := 1, flags := 256, requestPayload := 1232, pad := 128, q := [{ name := [[119,119,119],[101,120,97,109,112,108,101],[]], rdclass := 1, rdtype := 1 }], opt := some { ttl := 0, payload := 1232, options := [] }, tsig := some { name := [[107,101,121],[101,120,97,109,112,108,101],[]], alg := [[104,109,97,99,45,115,104,97,50,53,54],[]], time := 1700000000, fudge := 300, mac := List.replicate 32 0, origId := 1, error := 0, other := [] } } : Message).toWire 0 false).map List.length = .ok 128 := by
   rfl
 
--- non-vacuity of `padding_multiple_partial`: a padded EDNS query renders, to 128 octets
+/-- "rendering either raises the too-big error or …": when the OPT and TSIG reserves alone exceed the clamped limit
+nothing is rendered and the outcome is `TooBig` (repair 1c55079; formerly `ValueError` from `Renderer.reserve`). -/
+theorem reserve_too_big (m : Message) (lim : Nat) (pt : Bool) (b : Nat) (hb : m.tsigReserve = .ok b)
+    (hbig : m.optReserve + b > clampSize lim m.requestPayload) : m.toWire lim pt = .error .tooBig := by
+  simp [Message.toWire, Message.render, hb, Message.renderSections, hbig]
+
+-- non-vacuity of `padding_multiple`: a padded EDNS query renders, to 128 octets
 set_option maxRecDepth 100000 in
 example : (({ id := 1, flags := 256, pad := 128, q := [{ name := [[119,119,119],[101,120,97,109,112,108,101],[]], rdclass := 1, rdtype := 1 }], opt := some { ttl := 0, payload := 1232, options := [] } } : Message).toWire 0 false).map List.length = .ok 128 := by
   rfl
